@@ -99,11 +99,20 @@ def candidates(E, X, dmin, dmax):
         return np.where(ex, (d2 > dmin * dmin) & (d2 <= dmax * dmax), (d > dmin) & (d <= dmax))
 
 
-def boundary_clear(E, X, dmin, dmax, eps=1e-9):
-    """no INEXACT candidate distance within eps of min_distance or max_distance (such inputs are excluded, not judged); pairs on the
-    1/8 lattice with lattice bounds are never excluded: their ties are exact and are judged."""
+ROUNDOFF = 1e-13
+
+
+def boundary_clear(E, X, dmin, dmax, eps=None):
+    """eps=None (monitor): only candidate distances within float64 ROUND-OFF of a bound (|d - b| < 1e-13 * b, pair not on the exact lattice)
+    put an input out of domain - there the KD-tree's squared-radius test and this oracle's sqrt may legitimately disagree; everything farther
+    from a bound (1e-12 relative and more) is decided by comparing float64 distances.  d == 0 with min_distance == 0 is not a near-tie (0 is
+    computed exactly by everybody).  eps=number (generators of classes that do not aim at the bounds): absolute band eps is avoided."""
     d = link_matrix(E, X)
-    near = np.isfinite(d) & ((np.abs(d - dmax) <= eps) | (np.abs(d - dmin) <= eps))
+    fin = np.isfinite(d)
+    if eps is None:
+        near = fin & ((np.abs(d - dmax) < ROUNDOFF * dmax) | (np.abs(d - dmin) < ROUNDOFF * dmin))
+    else:
+        near = fin & ((np.abs(d - dmax) <= eps) | (np.abs(d - dmin) <= eps))
     return not bool((near & ~exact_pairs(E, X, dmin, dmax)).any())
 
 
